@@ -1,3 +1,4 @@
 """State shared by vlib.fixtures.decodables and its alias module vlib.fixtures.decodables_alt."""
 EVENTS = []          # dicts appended by every lifecycle participant
 CURRENT = [None]     # the model most recently created by RModel.decode (for events that are not handed the model)
+SHARED = {}          # 'decoder' / 'inner': set by the harness for hooks that decode a nested description
